@@ -388,6 +388,6 @@ PROP = C18()
 
 MANIFEST = dict(
     technique="Lean 4 proof over an effect-script interpreter (abstract file system; script regenerated from the AST of every dump method) + decide on the generated scripts; complete fault enumeration on real files; run-time effect order vs script",
-    text="Theorem C18_general: for ANY effect script in which nothing fallible follows open-for-write, any object (arbitrary outcome of validate/_get_parser/serialize = any failure point, nested or top-level) and any file system, a dump that fails anywhere except inside build_file's encoder leaves the whole file system unchanged. C18_here/C18_every_dump (decide on the scripts read from the source on every run): MetadataBase.dump and TreeInfo.dump have that shape, and each of the seven formats runs one of them. C18_nested: a refusing validator anywhere in the section tree makes the real scripts fail before anything is opened. C18_counterexample: the pre-fix order truncates. C18_encoder_failure_not_covered: a json encoder failure inside build_file happens after the open (known finding F19).",
+    text="Theorem C18_general: for ANY effect script in which nothing fallible follows open-for-write, any object (arbitrary outcome of validate/_get_parser/serialize = any failure point, nested or top-level) and any file system, a dump that fails anywhere except inside build_file's encoder leaves the whole file system unchanged. C18_here/C18_every_dump/C18_shape (decide on the scripts read from the source on every run): MetadataBase.dump and TreeInfo.dump have that shape (indeed the standard shape validate* getParser validate* serialize validate* openW buildFile), and each of the seven formats runs one of them. C18_nested: for every script of the standard shape, a refusing validator anywhere in the section tree makes dump fail with that error before anything is opened; C18_success: otherwise exactly the serialised text is written. C18_counterexample: the pre-fix order truncates. C18_encoder_failure_not_covered: a json encoder failure inside build_file happens after the open (known finding F19).",
     note="The with-block/open semantics (truncate at once, partial content flushed) are modelled and compared with real files on every case. Statements outside the dump idiom become `unknown` (fallible, assumed not to touch the file system). HTTP/file-object destinations are outside the property.",
     ref="7/C18")
